@@ -276,3 +276,99 @@ func c16XReplay(c c16XCase, seed int64) []verifFinding {
 	}
 	return nil
 }
+
+// C16 (d): with no version allowed (any combination of the four behaviour flags) Send and Receive hand EVERY message
+// through unchanged — also those that look like OTR: queries, error reports, encoded messages, fragments, tags.
+type c16DCase struct {
+	Flags string `json:"flags_of_disabled_policy"`
+	Input string `json:"message"`
+}
+
+func c16DisabledInputs(seed int64) (names []string, msgs [][]byte) {
+	add := func(n string, m []byte) { names = append(names, n); msgs = append(msgs, m) }
+	for _, v := range []int{2, 3} {
+		d := c16XDonor(seed, v)
+		for _, k := range []string{"COMMIT", "DHKEY", "REVEALSIG", "SIG", "DATA", "FRAG-first", "FRAG-last"} {
+			if d[k] != nil {
+				add(fmt.Sprintf("v%d %s", v, k), d[k])
+			}
+		}
+	}
+	for _, q := range []string{"?OTR?", "?OTRv2?", "?OTRv3?", "?OTRv23?", "?OTR?v2?", "?OTRv23? with text", "?OTR Error: something", "?OTR Error:", "?OTR", "?OTR:", "?OTR:AAMD.", "?OTR,1,2,x,", "?OTR|1|2,1,2,x,", "plain text", "", " \t  \t\t\t\t \t \t \t   \t \t  \t   \t\t  \t\t"} {
+		add(fmt.Sprintf("%q", q), []byte(q))
+	}
+	add("text with v2+v3 whitespace tag", append(append([]byte("hello"), refTagBase...), append(refWS("2"), refWS("3")...)...))
+	return
+}
+
+func c16DisabledRun(flags string, name string, msg []byte, seed int64) (fs []verifFinding) {
+	bad := func(sig, format string, a ...interface{}) {
+		fs = append(fs, verifFinding{"C16:" + sig, fmt.Sprintf("policy %q (no version allowed), message %s: ", flags, name) + fmt.Sprintf(format, a...)})
+	}
+	pol := verifParsePol(flags)
+	p := verifNewPrincipal(verifConvCfg{Name: "D", Seed: seed, Policies: pol, Key: verifKey(seed, "B")})
+	h0 := verifHash(p.C)
+	r := p.Receive(append([]byte{}, msg...))
+	if r.Panic != "" {
+		bad("panic:"+verifPanicClass(r.Panic), "%s", r.Panic)
+		return
+	}
+	if !bytes.Equal(r.Plain, msg) || len(r.Out) != 0 || r.Err != "" {
+		bad("otr-disabled-not-identity:receive", "Receive returned %q, %d message(s) to send, err %q", verifTrunc(r.Plain), len(r.Out), r.Err)
+	}
+	if verifHash(p.C) != h0 {
+		bad("otr-disabled-state-changed", "Receive changed the conversation state")
+	}
+	s := p.Send(append([]byte{}, msg...))
+	if s.Panic != "" {
+		bad("panic:"+verifPanicClass(s.Panic), "%s", s.Panic)
+		return
+	}
+	if len(s.Out) != 1 || !bytes.Equal(s.Out[0], msg) || s.Err != "" {
+		bad("otr-disabled-not-identity:send", "Send returned %d message(s) (first %q), err %q", len(s.Out), verifTrunc(verifFirst(s.Out)), s.Err)
+	}
+	return
+}
+
+func c16DisabledFlags() (out []string) {
+	for m := 0; m < 16; m++ {
+		f := ""
+		for i, c := range "rwse" {
+			if m&(1<<uint(i)) != 0 {
+				f += string(c)
+			}
+		}
+		if f == "" {
+			f = "-"
+		}
+		out = append(out, f)
+	}
+	return
+}
+
+func c16Disabled(r *verifReport) {
+	names, msgs := c16DisabledInputs(r.Seed)
+	n := 0
+	for _, f := range c16DisabledFlags() {
+		for i := range msgs {
+			n++
+			r.Evals++
+			r.Nontrivial++
+			for _, x := range c16DisabledRun(f, names[i], msgs[i], r.Seed) {
+				r.addCase("C16", x.Sig, x.Detail, c16DCase{f, names[i]})
+			}
+		}
+	}
+	r.Extra["disabled_policy_cases"] = n
+	r.Outcomes["no version allowed: message handed through unchanged by Receive and Send"] += int64(n)
+}
+
+func c16DReplay(c c16DCase, seed int64) []verifFinding {
+	names, msgs := c16DisabledInputs(seed)
+	for i := range names {
+		if names[i] == c.Input {
+			return c16DisabledRun(c.Flags, names[i], msgs[i], seed)
+		}
+	}
+	return nil
+}
